@@ -47,6 +47,18 @@ pub struct LargeEnc {
     pub via_iccma: bool,
     pub dups: Vec<u16>,
     pub probes: Vec<u64>,
+    /// 0: the attack list is taken as it is. 32 or 64: every endpoint is rewritten to
+    /// `residue + period * floor` with the residue drawn from a dozen active residues, so that the attackers
+    /// and defenders of an argument share residues modulo the period (ids that alias in 32/64-bit masks,
+    /// signatures and word-sized tables) and their sums coincide often.
+    #[serde(default)]
+    pub period: u8,
+    /// with a period: the attack list is a pattern over eight residues and every pattern attack is lifted to
+    /// all floors through a permutation of the floors (identity, rotation, swap of two floors, reversal): the
+    /// attackers of two arguments of one residue then have the same residues on permuted floors - equal
+    /// masks modulo the period, equal sizes and, often, equal sums
+    #[serde(default)]
+    pub lift: bool,
 }
 
 #[derive(Clone, Debug, serde::Serialize, serde::Deserialize)]
@@ -58,6 +70,40 @@ pub enum EncAny {
 fn large_graph(c: &LargeEnc) -> crate::checks::metamorphic::BigGraph {
     let n = c.n;
     let mut att: Vec<(u16, u16)> = c.att.iter().map(|(a, b)| ((*a as usize % n) as u16, (*b as usize % n) as u16)).collect();
+    if c.period >= 2 && n >= 2 * c.period as usize {
+        let p = c.period as usize;
+        let floors = n / p;
+        // a dozen active residues chosen by the first probe word
+        let w = c.probes.first().copied().unwrap_or(0x9E37_79B9);
+        let active: Vec<usize> = (0..12).map(|k| ((w >> (5 * k)) as usize + 7 * k) % p).collect();
+        let place = |x: u16| -> u16 {
+            let x = x as usize;
+            (active[x % active.len()] + p * ((x / active.len()) % floors)) as u16
+        };
+        att = c.att.iter().map(|(a, b)| (place(*a), place(*b))).collect();
+        if c.lift {
+            att.clear();
+            let r = 8usize;
+            for (a, b) in &c.att {
+                let (a, b) = (*a as usize, *b as usize);
+                let (ra, rb) = (active[a % r], active[b % r]);
+                let kind = (a / r) % 4;
+                for f in 0..floors {
+                    let sf = match kind {
+                        0 => f,
+                        1 => (f + 1) % floors,
+                        2 => match f {
+                            0 => 1 % floors,
+                            1 => 0,
+                            x => x,
+                        },
+                        _ => floors - 1 - f,
+                    };
+                    att.push(((ra + p * sf) as u16, (rb + p * f) as u16));
+                }
+            }
+        }
+    }
     for k in 0..(c.hub_attackers as usize).min(n.saturating_sub(1)) {
         att.push((((k + 1) % n) as u16, 0));
     }
@@ -125,6 +171,29 @@ impl Encodings {
                 }
                 let sig = format!("C10/large/{}/{}", enc.name(), if with_range { "with-range" } else { "plain" });
                 let e = encoder::<usize>(enc);
+                if c.probes.first().map_or(false, |w| w % 2 == 0) {
+                    // the solvers keep one encoder object for all components: the same object first encodes a
+                    // small dense framework (a symmetric clique on 6 arguments, auxiliary branch of the hybrid encoder)
+                    let labels: Vec<usize> = (1..=6).collect();
+                    let mut waf = AAFramework::new_with_argument_set(crustabri::aa::ArgumentSet::new_with_labels(&labels));
+                    for a in 1..=6usize {
+                        for b in 1..=6usize {
+                            if a != b {
+                                waf.new_attack(&a, &b).unwrap();
+                            }
+                        }
+                    }
+                    let mut throwaway = sat::default_solver();
+                    guard(|| {
+                        if with_range {
+                            e.encode_constraints_and_range(&waf, throwaway.as_mut())
+                        } else {
+                            e.encode_constraints(&waf, throwaway.as_mut())
+                        }
+                    })
+                    .map_err(|p| Failure::new(format!("{}/encoder-panic-on-warm-up", sig), p))?;
+                    rec.class("large-after-warm-up-on-the-same-encoder-object");
+                }
                 let shared = Shared::recording(usize::MAX);
                 let mut rec_solver = satwrap::wrap(&shared, sat::default_solver());
                 guard(|| {
@@ -166,6 +235,99 @@ impl Encodings {
                 probe.reserve(nv);
                 for cl in &clauses {
                     probe.add_clause(cl.iter().map(|l| Literal::from(*l)).collect());
+                }
+                // (1) exact, by SAT: is there a model of the CNF whose projection is NOT in the family? The
+                // defining conditions of the family are negated over fresh variables in a copy of the CNF.
+                {
+                    let mut hunt = sat::default_solver();
+                    hunt.reserve(nv);
+                    for cl in &clauses {
+                        hunt.add_clause(cl.iter().map(|l| Literal::from(*l)).collect());
+                    }
+                    let mut next = nv as isize;
+                    let mut fresh = || {
+                        next += 1;
+                        next
+                    };
+                    let attackers: Vec<Vec<usize>> = {
+                        let mut v = vec![vec![]; n];
+                        for (a, b) in &g.att {
+                            if !v[*b as usize].contains(&(*a as usize)) {
+                                v[*b as usize].push(*a as usize);
+                            }
+                        }
+                        v
+                    };
+                    // p[a] <-> some attacker of a is in the set
+                    let p: Vec<isize> = (0..n).map(|_| fresh()).collect();
+                    for a in 0..n {
+                        let mut long = vec![Literal::from(-p[a])];
+                        for b in &attackers[a] {
+                            long.push(Literal::from(lits[*b]));
+                            hunt.add_clause(vec![Literal::from(-lits[*b]), Literal::from(p[a])]);
+                        }
+                        hunt.add_clause(long);
+                    }
+                    let mut violations: Vec<Literal> = vec![];
+                    let base = base_of(enc);
+                    for a in 0..n {
+                        // a member that is attacked by the set
+                        let v = fresh();
+                        hunt.add_clause(vec![Literal::from(-v), Literal::from(lits[a])]);
+                        hunt.add_clause(vec![Literal::from(-v), Literal::from(p[a])]);
+                        violations.push(Literal::from(v));
+                        if base == "adm" || base == "co" {
+                            // a member with an attacker that the set does not attack
+                            for b in &attackers[a] {
+                                let v = fresh();
+                                hunt.add_clause(vec![Literal::from(-v), Literal::from(lits[a])]);
+                                hunt.add_clause(vec![Literal::from(-v), Literal::from(-p[*b])]);
+                                violations.push(Literal::from(v));
+                            }
+                        }
+                        if base == "co" {
+                            // a non-member all of whose attackers are attacked
+                            let v = fresh();
+                            hunt.add_clause(vec![Literal::from(-v), Literal::from(-lits[a])]);
+                            for b in &attackers[a] {
+                                hunt.add_clause(vec![Literal::from(-v), Literal::from(p[*b])]);
+                            }
+                            violations.push(Literal::from(v));
+                        }
+                        if base == "st" {
+                            // a non-member that is not attacked
+                            let v = fresh();
+                            hunt.add_clause(vec![Literal::from(-v), Literal::from(-lits[a])]);
+                            hunt.add_clause(vec![Literal::from(-v), Literal::from(-p[a])]);
+                            violations.push(Literal::from(v));
+                        }
+                        if with_range {
+                            // a range variable that is true although the argument is neither a member nor
+                            // attacked (the converse is not demanded: the encoders only need r -> in range,
+                            // the solvers maximise the true range variables)
+                            let r = range_lit(a);
+                            let v = fresh();
+                            hunt.add_clause(vec![Literal::from(-v), Literal::from(r)]);
+                            hunt.add_clause(vec![Literal::from(-v), Literal::from(-lits[a])]);
+                            hunt.add_clause(vec![Literal::from(-v), Literal::from(-p[a])]);
+                            violations.push(Literal::from(v));
+                        }
+                    }
+                    hunt.add_clause(violations);
+                    rec.count("exact-searches-for-a-model-outside-the-family", 1);
+                    if let SolvingResult::Satisfiable(m) = hunt.solve() {
+                        let s0: Vec<bool> = (0..n).map(|i| m.value_of(lits[i] as usize) == Some(true)).collect();
+                        let att_by = adj.attacked_by(&s0);
+                        let range_wrong = with_range && (0..n).any(|i| m.value_of(range_lit(i) as usize) == Some(true) && !(s0[i] || att_by[i]));
+                        if in_family(&s0) && !range_wrong {
+                            // the hunt's own encoding claims a violation that the polynomial check does not confirm
+                            std::panic::panic_any(crate::engine::Inconclusive(format!("C10 hunt encoding disagrees with the polynomial membership test on {:?}", g.att)));
+                        }
+                        return Err(Failure::new(
+                            format!("{}/{}", sig, if in_family(&s0) { "range-variable-true-outside-range-in-some-model".to_string() } else { format!("cnf-has-model-outside-the-{}-family", base) }),
+                            format!("found by exact search: model projection {:?}; n {} attacks {:?}", (0..n).filter(|i| s0[*i]).collect::<Vec<_>>(), n, g.att),
+                        ));
+                    }
                 }
                 // probe sets
                 let mut sets: Vec<Vec<bool>> = vec![vec![false; n], adj.grounded()];
@@ -490,8 +652,21 @@ impl Prop for Encodings {
             .prop_flat_map(|n| {
                 (Just(n), vec((any::<u16>(), any::<u16>()), 0..=(2 * n)), prop_oneof![2 => Just(0u8), 1 => 6u8..24], any::<bool>(), vec(any::<u16>(), 0..=4), vec(any::<u64>(), 4..=12))
             })
-            .prop_map(|(n, att, hub_attackers, via_iccma, dups, probes)| EncAny::Large(LargeEnc { n, att, hub_attackers, via_iccma, dups, probes }));
-        prop_oneof![40 => small, 1 => large].boxed()
+            .prop_map(|(n, att, hub_attackers, via_iccma, dups, probes)| EncAny::Large(LargeEnc { n, att, hub_attackers, via_iccma, dups, probes, period: 0, lift: false }));
+        // 64-320 arguments whose attacks run between a dozen residues modulo 32 or 64 on several floors
+        let residue = (prop_oneof![1 => Just(32u8), 3 => Just(64u8)], 2usize..=5, 0usize..3)
+            .prop_flat_map(|(period, floors, extra)| {
+                let n = period as usize * floors + extra;
+                (Just(n), Just(period), vec((any::<u16>(), any::<u16>()), 20..=(12 * floors * 3)), any::<bool>(), vec(any::<u16>(), 0..=3), vec(any::<u64>(), 4..=8))
+            })
+            .prop_map(|(n, period, att, via_iccma, dups, probes)| EncAny::Large(LargeEnc { n, att, hub_attackers: 0, via_iccma, dups, probes, period, lift: false }));
+        let lifted = (prop_oneof![1 => Just(32u8), 3 => Just(64u8)], 2usize..=4, 0usize..3)
+            .prop_flat_map(|(period, floors, extra)| {
+                let n = period as usize * floors + extra;
+                (Just(n), Just(period), vec((any::<u16>(), any::<u16>()), 6..=22), any::<bool>(), vec(any::<u64>(), 4..=8))
+            })
+            .prop_map(|(n, period, att, via_iccma, probes)| EncAny::Large(LargeEnc { n, att, hub_attackers: 0, via_iccma, dups: vec![], probes, period, lift: true }));
+        prop_oneof![80 => small, 2 => large, 1 => residue, 1 => lifted].boxed()
     }
     fn n_cases(&self, tier: Tier) -> u32 {
         tier.pick(80_000, 1_500_000)
@@ -509,7 +684,8 @@ impl Prop for Encodings {
     fn run(&self, any: &EncAny, rec: &mut Rec) -> CheckResult {
         let ecase = match any {
             EncAny::Small(e) => e,
-            EncAny::Large(l) => return self.run_large(l, rec),
+            // shrinking a framework of hundreds of arguments costs minutes: reported as found
+            EncAny::Large(l) => return self.run_large(l, rec).map_err(|f| if l.n > 100 { f.unshrinkable() } else { f }),
         };
         let case = &ecase.gc;
         rec.class(&format!("pres-{}", case.pres.kind()));
